@@ -896,4 +896,212 @@ theorem isSetVal_default (sd : StructDef) (f : Field) (v dv : Val)
   rw [← Val.beq_iff v dv]
   cases Val.beq v dv <;> simp
 
+/-! ### ill-formed values: unions whose set-field count is not one, at any depth -/
+
+
+/-- `v` (of declared type `t`, within depth `n`) CONTAINS A BAD UNION: at some position reachable through
+the elements of lists / sets / maps and through struct fields that the emitted Write writes (listed and
+`IsSet`), a union whose number of set fields is not one. -/
+def HasBadUnion (d : Defs) : Nat → Ty → Val → Prop
+  | 0, _, _ => False
+  | n + 1, t, v =>
+    match resolve d t, v with
+    | .list a, .list vs => ∃ x ∈ vs, HasBadUnion d n a x
+    | .set a, .list vs => ∃ x ∈ vs, HasBadUnion d n a x
+    | .map kt vt, .map kvs => ∃ kv ∈ kvs, HasBadUnion d n kt kv.1 ∨ HasBadUnion d n vt kv.2
+    | .struct nm, .struct fs =>
+      ∃ sd, lookupStruct d nm = some sd ∧
+        ((sd.kind = .union ∧ (sd.fields.filter (isSetIn sd fs)).length ≠ 1) ∨
+         ∃ f ∈ sd.fields, ∃ x, lookupVal fs f.id = some x ∧ isSetVal sd f x = true ∧ HasBadUnion d n f.ty x)
+    | _, _ => False
+
+theorem All2.of_mem {α β : Type} {R : α → β → Prop} : ∀ {l : List α} {l' : List β}, All2 R l l' →
+    ∀ x ∈ l, ∃ c, R x c := by
+  intro l l' h
+  induction h with
+  | nil => intro x hx; cases hx
+  | cons hr _ ih =>
+    intro x hx
+    rcases List.mem_cons.mp hx with rfl | hm
+    · exact ⟨_, hr⟩
+    · exact ih x hm
+
+/-- The emitted `Write` NEVER succeeds on a value that contains a bad union, at any depth — whatever
+else the value looks like. -/
+theorem enc_bad_union_not_ok (d : Defs) : ∀ (n : Nat) (t : Ty) (v : Val) (es : List Event),
+    HasBadUnion d n t v → encV d n t v ≠ .ok es := by
+  intro n
+  induction n with
+  | zero => intro t v es h; simp [HasBadUnion] at h
+  | succ n ih =>
+    intro t v es hb henc
+    unfold HasBadUnion at hb
+    unfold encV at henc
+    split at hb
+    all_goals (try (rename_i hres; simp only [hres] at henc))
+    · -- list
+      rename_i a vs
+      obtain ⟨x, hx, hbx⟩ := hb
+      split at henc
+      · rename_i body hbody
+        obtain ⟨cs, hall, _⟩ := concatRes_map_ok _ _ _ hbody
+        obtain ⟨c, hc⟩ := All2.of_mem hall x hx
+        exact ih a x c hbx hc
+      · cases henc
+      · cases henc
+    · rename_i a vs
+      obtain ⟨x, hx, hbx⟩ := hb
+      split at henc
+      · rename_i body hbody
+        obtain ⟨cs, hall, _⟩ := concatRes_map_ok _ _ _ hbody
+        obtain ⟨c, hc⟩ := All2.of_mem hall x hx
+        exact ih a x c hbx hc
+      · cases henc
+      · cases henc
+    · rename_i kt vt kvs
+      obtain ⟨kv, hkv, hbkv⟩ := hb
+      split at henc
+      · rename_i body hbody
+        obtain ⟨cs, hall, _⟩ := concatRes_map_ok _ _ _ hbody
+        obtain ⟨c, hc⟩ := All2.of_mem hall kv hkv
+        obtain ⟨ca, cb, hca, hcb, _⟩ := concatRes_pair _ _ _ hc
+        rcases hbkv with h | h
+        · exact ih kt kv.1 ca h hca
+        · exact ih vt kv.2 cb h hcb
+      · cases henc
+      · cases henc
+    · rename_i nm fs
+      obtain ⟨sd, hsd, hbad⟩ := hb
+      simp only [hsd] at henc
+      split at henc
+      · cases henc
+      · rename_i hnotbad
+        rcases hbad with hu | ⟨f, hf, x, hl, hs, hbx⟩
+        · exact hnotbad hu
+        · split at henc
+          · rename_i body hbody
+            obtain ⟨cs, hall, _⟩ := concatRes_map_ok _ _ _ hbody
+            obtain ⟨c, hc⟩ := All2.of_mem hall f hf
+            simp only [fieldEvents, hl, if_pos hs] at hc
+            split at hc
+            · rename_i fes hfes
+              exact ih f.ty x fes hbx hfes
+            · cases hc
+            · cases hc
+          · cases henc
+          · cases henc
+    · exact hb
+
+
+/-- Well-typed APART FROM the union counts (and canonical form): what the harness can build in the emitted
+Go types when it sets none or several fields of a union. -/
+def WTU (d : Defs) : Nat → Ty → Val → Prop
+  | 0, _, _ => False
+  | n + 1, t, v =>
+    match resolve d t, v with
+    | .bool, .bool _ => True
+    | .byte, .int _ => True
+    | .i16, .int _ => True
+    | .i32, .int _ => True
+    | .i64, .int _ => True
+    | .enum _, .int _ => True
+    | .double, .dbl _ => True
+    | .string, .bytes _ => True
+    | .binary, .bytes _ => True
+    | .list a, .list vs => ∀ x ∈ vs, WTU d n a x
+    | .set a, .list vs => ∀ x ∈ vs, WTU d n a x
+    | .map kt vt, .map kvs => ∀ kv ∈ kvs, WTU d n kt kv.1 ∧ WTU d n vt kv.2
+    | .struct nm, .struct fs =>
+      ∃ sd, lookupStruct d nm = some sd ∧
+        (∀ f ∈ sd.fields, f.req ≠ .optional → sd.kind ≠ .union → (lookupVal fs f.id).isSome) ∧
+        (∀ f ∈ sd.fields, ∀ x, lookupVal fs f.id = some x → WTU d n f.ty x)
+    | _, _ => False
+
+theorem WT.toWTU (d : Defs) : ∀ (n : Nat) (t : Ty) (v : Val), WT d n t v → WTU d n t v := by
+  intro n
+  induction n with
+  | zero => intro t v h; simp [WT] at h
+  | succ n ih =>
+    intro t v h
+    unfold WT at h
+    unfold WTU
+    split at h
+    all_goals (try (rename_i hres; simp only [hres]))
+    · exact fun x hx => ih _ x (h x hx)
+    · exact fun x hx => ih _ x (h x hx)
+    · exact fun kv hkv => ⟨ih _ _ (h kv hkv).1, ih _ _ (h kv hkv).2⟩
+    · obtain ⟨sd, hsd, _, _, _, hreq, hfields, _, _⟩ := h
+      exact ⟨sd, hsd, hreq, fun f hf x hl => ih _ x (hfields f hf x hl)⟩
+    · exact absurd h (by simp)
+
+def OkOrInvalid (r : Res (List Event)) : Prop := (∃ es, r = .ok es) ∨ r = .err .invalidData
+
+theorem concatRes_map_okOrInvalid {α : Type} (g : α → Res (List Event)) :
+    ∀ (l : List α), (∀ x ∈ l, OkOrInvalid (g x)) → OkOrInvalid (concatRes (l.map g)) := by
+  intro l
+  induction l with
+  | nil => intro _; exact Or.inl ⟨[], rfl⟩
+  | cons x t ih =>
+    intro h
+    rcases h x (by simp) with ⟨c, hc⟩ | he
+    · rcases ih (fun y hy => h y (by simp [hy])) with ⟨es, hes⟩ | he2
+      · exact Or.inl ⟨c ++ es, by simp [concatRes, hc, hes]⟩
+      · exact Or.inr (by simp [concatRes, hc, he2])
+    · exact Or.inr (by simp [concatRes, he])
+
+/-- On a value that is well-typed apart from its union counts the emitted `Write` either succeeds or
+returns INVALID_DATA: it never panics, and no other error arises. -/
+theorem enc_okOrInvalid (d : Defs) : ∀ (n : Nat) (t : Ty) (v : Val), WTU d n t v → OkOrInvalid (encV d n t v) := by
+  intro n
+  induction n with
+  | zero => intro t v h; simp [WTU] at h
+  | succ n ih =>
+    intro t v hwt
+    unfold WTU at hwt
+    unfold encV
+    split at hwt
+    all_goals (try (rename_i hres; simp only [hres]))
+    all_goals (try (exact Or.inl ⟨_, rfl⟩))
+    · rename_i a vs
+      rcases concatRes_map_okOrInvalid (encV d n a) vs (fun x hx => ih a x (hwt x hx)) with ⟨es, hes⟩ | he
+      · exact Or.inl ⟨_, by rw [hes]⟩
+      · exact Or.inr (by rw [he])
+    · rename_i a vs
+      rcases concatRes_map_okOrInvalid (encV d n a) vs (fun x hx => ih a x (hwt x hx)) with ⟨es, hes⟩ | he
+      · exact Or.inl ⟨_, by rw [hes]⟩
+      · exact Or.inr (by rw [he])
+    · rename_i kt vt kvs
+      rcases concatRes_map_okOrInvalid (fun kv : Val × Val => concatRes [encV d n kt kv.1, encV d n vt kv.2]) kvs
+        (fun kv hkv => by
+          have := concatRes_map_okOrInvalid (fun r : Res (List Event) => r) [encV d n kt kv.1, encV d n vt kv.2]
+            (by intro r hr
+                simp only [List.mem_cons, List.mem_nil_iff, or_false] at hr
+                rcases hr with rfl | rfl
+                · exact ih kt kv.1 (hwt kv hkv).1
+                · exact ih vt kv.2 (hwt kv hkv).2)
+          simpa using this) with ⟨es, hes⟩ | he
+      · exact Or.inl ⟨_, by rw [hes]⟩
+      · exact Or.inr (by rw [he])
+    · rename_i nm fs
+      obtain ⟨sd, hsd, hreq, hfields⟩ := hwt
+      simp only [hsd]
+      split
+      · exact Or.inr rfl
+      · rcases concatRes_map_okOrInvalid (fieldEvents d (encV d n) sd fs) sd.fields (by
+          intro f hf
+          unfold fieldEvents
+          cases hl : lookupVal fs f.id with
+          | some x =>
+            simp only
+            split
+            · rcases ih f.ty x (hfields f hf x hl) with ⟨c, hc⟩ | he
+              · exact Or.inl ⟨_, by rw [hc]⟩
+              · exact Or.inr (by rw [he])
+            · exact Or.inl ⟨[], rfl⟩
+          | none =>
+            exact Or.inl ⟨[], by simp only [if_pos (optional_of_absent sd fs hreq f hf hl)]⟩) with ⟨es, hes⟩ | he
+        · exact Or.inl ⟨_, by rw [hes]⟩
+        · exact Or.inr (by rw [he])
+    · exact absurd hwt (by simp)
+
 end FV.Thrift
